@@ -3,6 +3,7 @@
 mod conv;
 mod ops;
 mod sexp;
+mod sinks;
 
 use std::io::{BufRead, Write};
 
